@@ -24,6 +24,9 @@ const (
 	kProbe   = "p" // HasPiece / GetPieceReader / PieceLength of an arbitrary index
 	kPark    = "k" // WritePiece on its own goroutine, parked after it found the piece writable and before it claims it (verif scheduling point)
 	kUnpark  = "u" // let the Which-th parked writer go on and wait for its result
+	kMove    = "m" // a correct WritePiece on its own goroutine; if it completes the torrent it is parked right before it moves the file to the cache
+	kMoveOn  = "n" // let the writer parked before the move go on and wait for its result
+	kSecond  = "2" // while a writer is parked before the move: CreateTorrent again (what every further Download does); the first instance stays in use
 )
 
 type Step struct {
@@ -157,6 +160,34 @@ func genCase(t *rapid.T) Case {
 			c.Steps = append(c.Steps, Step{Kind: kUnpark})
 		}
 	}
+	// One case in three ends the download through the commit window: the write of a still
+	// missing piece is issued as a "move" step (it parks before the move to the cache if it
+	// completes the torrent), optionally another instance is opened, then it goes on.
+	if n > 0 && rapid.IntRange(0, 2).Draw(t, "commit_window") == 0 {
+		last := order[n-1]
+		if keep == n && len(c.Steps) > 0 {
+			// turn the main loop's write of the last piece into the parked one
+			for k := len(c.Steps) - 1; k >= 0; k-- {
+				if (c.Steps[k].Kind == kWrite || c.Steps[k].Kind == kHold) && c.Steps[k].Index == last && c.Steps[k].Mode == mCorrect {
+					c.Steps[k] = Step{Kind: kMove, Index: last}
+					break
+				}
+			}
+		} else {
+			for _, pi := range order[keep:] {
+				c.Steps = append(c.Steps, Step{Kind: kMove, Index: pi})
+			}
+		}
+		for k := rapid.IntRange(0, 2).Draw(t, "in_window"); k > 0; k-- {
+			c.Steps = append(c.Steps, genNoise(t, c.Layout))
+		}
+		if rapid.Bool().Draw(t, "second") {
+			c.Steps = append(c.Steps, Step{Kind: kSecond})
+		}
+		if rapid.IntRange(0, 3).Draw(t, "move_on") != 0 {
+			c.Steps = append(c.Steps, Step{Kind: kMoveOn})
+		}
+	}
 	for k := rapid.IntRange(0, 5).Draw(t, "tail"); k > 0; k-- {
 		c.Steps = append(c.Steps, genNoise(t, c.Layout))
 	}
@@ -201,6 +232,7 @@ type writer struct {
 	// parked writers
 	atPoint chan struct{}
 	goOn    chan struct{}
+	point   string // scheduling point this writer parks at
 }
 
 type histRun struct {
@@ -216,6 +248,8 @@ type histRun struct {
 	parked []*writer
 	mu     sync.Mutex
 	byG    map[uint64]*writer
+	// the writer parked right before the move to the cache (all pieces verified, not committed yet)
+	mover *writer
 	// statistics
 	cls            map[string]bool
 	rejectedOnOpen map[int]bool // pieces that had a payload-rejected write
@@ -380,8 +414,14 @@ func (h *histRun) check(where string) string {
 	if bd := t.BytesDownloaded(); bd < verified || bd > hi {
 		return fail("BytesDownloaded = %d, but %d pieces (%d bytes) are verified (allowed %d..%d)", bd, count, verified, verified, hi)
 	}
-	if t.Complete() != h.com {
-		return fail("Complete() = %v, all pieces verified = %v", t.Complete(), h.com)
+	// While the completing writer is parked before the move, its instance must not report
+	// completion yet (even if another instance has committed the file meanwhile).
+	// (If another instance has committed the file meanwhile, either answer is accepted until
+	// the parked writer has gone on.)
+	if h.mover != nil && h.com {
+		// not judged
+	} else if t.Complete() != h.com {
+		return fail("Complete() = %v, blob committed to the cache = %v (completing writer still before its move to the cache = %v)", t.Complete(), h.com, h.mover != nil)
 	}
 	// Persisted piece status, as the archive reports it (what the scheduler announces).
 	if info, err := h.a.archive.Stat("ns", h.a.digest); err != nil {
@@ -494,13 +534,10 @@ func goid() uint64 {
 
 // yield is the verif scheduling-point callback: a writer started by a park step stops here.
 func (h *histRun) yield(point string, pi int) {
-	if point != "writePiece.beforeClaim" {
-		return
-	}
 	h.mu.Lock()
 	w := h.byG[goid()]
 	h.mu.Unlock()
-	if w == nil {
+	if w == nil || w.point != point {
 		return
 	}
 	w.atPoint <- struct{}{}
@@ -513,7 +550,7 @@ func (h *histRun) yield(point string, pi int) {
 func (h *histRun) startParked(i int, s Step) string {
 	idx := resolveIndex(s.Index)
 	w := &writer{id: i, step: i, idx: idx, pl: makePayload(h.c.Layout, idx, s.Mode, s.Arg),
-		done: make(chan callResult, 1), atPoint: make(chan struct{}), goOn: make(chan struct{})}
+		done: make(chan callResult, 1), atPoint: make(chan struct{}), goOn: make(chan struct{}), point: "writePiece.beforeClaim"}
 	w.rd = newReader(w.pl)
 	t := h.t
 	go func() {
@@ -541,6 +578,61 @@ func (h *histRun) startParked(i int, s Step) string {
 	}
 }
 
+// startMover issues a correct write of piece idx on its own goroutine. If it is the write
+// that completes the torrent, WritePiece stops right before the move to the cache: every
+// piece is verified and reported, the blob is not committed yet.
+func (h *histRun) startMover(i int, idx int) string {
+	w := &writer{id: i, step: i, idx: idx, pl: makePayload(h.c.Layout, idx, mCorrect, 0),
+		done: make(chan callResult, 1), atPoint: make(chan struct{}), goOn: make(chan struct{}), point: "writePiece.beforeMove"}
+	w.rd = newReader(w.pl)
+	h.issue(w)
+	t := h.t
+	go func() {
+		g := goid()
+		h.mu.Lock()
+		h.byG[g] = w
+		h.mu.Unlock()
+		res := guardedWrite(t, w.rd, idx)
+		h.mu.Lock()
+		delete(h.byG, g)
+		h.mu.Unlock()
+		w.done <- res
+	}()
+	select {
+	case <-w.atPoint:
+		if w.expect != exAcceptGood {
+			close(w.goOn)
+			<-w.done
+			return fmt.Sprintf("a write that had to be refused went on to commit the torrent\n  %s", h.describe(w))
+		}
+		// the piece is verified and reported; the commit has not happened
+		h.st[w.idx] = psComplete
+		if !h.allComplete() {
+			close(w.goOn)
+			<-w.done
+			return fmt.Sprintf("WritePiece set out to move the file to the cache while the model has unverified pieces (%s)\n  %s", h.modelString(), h.describe(w))
+		}
+		h.mover = w
+		h.class("writer-parked-before-move-to-cache")
+		return ""
+	case res := <-w.done:
+		return h.settle(w, res)
+	}
+}
+
+// moveOn lets the writer parked before the move go on.
+func (h *histRun) moveOn() string {
+	w := h.mover
+	h.mover = nil
+	close(w.goOn)
+	res := <-w.done
+	if res.panicked != "" || res.err != nil {
+		return fmt.Sprintf("the write that completed the torrent failed after every piece was verified\n  %s returned %s", h.describe(w), res)
+	}
+	h.com = true
+	return ""
+}
+
 func (h *histRun) unparkAt(k int) string {
 	w := h.parked[k]
 	h.parked = append(h.parked[:k:k], h.parked[k+1:]...)
@@ -564,6 +656,11 @@ func (h *histRun) releaseAt(k int) string {
 }
 
 func (h *histRun) drainAll() {
+	if h.mover != nil {
+		close(h.mover.goOn)
+		<-h.mover.done
+		h.mover = nil
+	}
 	for _, w := range h.parked {
 		close(w.goOn)
 		<-w.done
@@ -640,8 +737,33 @@ func runCase(c Case) pbt.Verdict {
 				continue
 			}
 			msg = h.unparkAt(s.Which % len(h.parked))
+		case kMove:
+			idx := resolveIndex(s.Index)
+			if h.mover != nil || !l.valid(idx) {
+				h.class("skipped-move")
+				continue
+			}
+			msg = h.startMover(i, idx)
+		case kMoveOn:
+			if h.mover == nil {
+				h.class("skipped-moveon")
+				continue
+			}
+			msg = h.moveOn()
+		case kSecond:
+			if h.mover == nil || len(h.held) > 0 || len(h.parked) > 0 {
+				h.class("skipped-second-instance")
+				continue
+			}
+			// Every further Download of the blob opens the torrent again while the first
+			// instance is still in use. All pieces are verified, so the new instance commits.
+			if _, err := a.archive.CreateTorrent("ns", a.digest); err != nil {
+				return pbt.Fail("CreateTorrent of a torrent whose pieces are all verified failed\n  step %d: %v", i, err)
+			}
+			h.com = true
+			h.class("second-instance-commits-while-first-is-before-its-move")
 		case kReopen:
-			if len(h.held) > 0 || len(h.parked) > 0 {
+			if len(h.held) > 0 || len(h.parked) > 0 || h.mover != nil {
 				h.class("skipped-reopen")
 				continue
 			}
@@ -689,6 +811,14 @@ func runCase(c Case) pbt.Verdict {
 		h.class("commit-mid-history")
 	}
 	// Epilogue: let every parked and held writer finish, then write what is still missing.
+	if h.mover != nil {
+		if msg := h.moveOn(); msg != "" {
+			return pbt.Fail("%s", msg)
+		}
+		if msg := h.check("epilogue, after the completing writer moved on"); msg != "" {
+			return pbt.Fail("%s", msg)
+		}
+	}
 	for len(h.parked) > 0 {
 		if msg := h.unparkAt(0); msg != "" {
 			return pbt.Fail("%s", msg)
